@@ -27,6 +27,21 @@ class C:
     pass
 
 
+class D:
+    pass
+
+
+class FalsyCallable(list):
+    """an (empty) collection of clean-up actions that is itself callable"""
+    def __call__(self):
+        for f in self:
+            f()
+
+
+def _make_c(_n):
+    return C()
+
+
 async def _quiet(coro_or_fn, *a, **kw):
     """Call something that is expected to raise; the recorded outcome is what matters."""
     try:
@@ -239,7 +254,8 @@ async def factories_that_use_the_context():
 
 @scenario
 async def component_tree():
-    from asphalt.core import Component, Context, add_resource, add_resource_factory, get_resource, get_resource_nowait, get_resources, start_component
+    import functools
+    from asphalt.core import Component, Context, add_resource, add_resource_factory, current_context, get_resource, get_resource_nowait, get_resources, start_component
 
     class Leaf(Component):
         def __init__(self, tag="leaf"):
@@ -248,12 +264,22 @@ async def component_tree():
         async def start(self):
             add_resource(A(), description=self.tag)              # default name remapped through the alias
             add_resource_factory(lambda: C(), types=[C], description="factory of " + self.tag)
+            add_resource(B(), "withcb_" + self.tag, teardown_callback=FalsyCallable())    # a callable that is falsy
+            add_resource_factory(functools.partial(_make_c, 1), "partial_" + self.tag, types=[C])   # hints of a partial cannot be read
+            async with Context(current_context()) as explicit:   # the component's own context given explicitly as the parent
+                explicit.get_resources(A)
+                await _quiet(explicit.get_resource_nowait, B, "withcb_" + self.tag)
             async with Context() as inner:                       # a context opened inside start(): snapshot of the real parent, now
                 inner.get_resources(A)
                 await _quiet(inner.get_resource, C)
                 await _quiet(inner.get_resource_nowait, A, self.tag if self.tag != "leaf" else "default")
             await get_resource(B, "shared")                      # waits for the sibling
             get_resources(A)
+
+    class Plugin(Component):
+        async def start(self):
+            add_resource(D())                                    # the nested tree's own default name: "default"
+            get_resources(D)
 
     class Provider(Component):
         async def prepare(self):
@@ -262,6 +288,7 @@ async def component_tree():
 
         async def start(self):
             add_resource(B(), "shared")
+            await start_component(Plugin)                        # a nested tree started from start() of a component deployed as kind/name
             await _quiet(get_resource, A, "first", optional=True)
             get_resource_nowait(B, "prepared")
 
